@@ -73,6 +73,16 @@ class BV(Sort):
         return "BV(%d,%s)" % (self.width, "s" if self.signed else "u")
 
 
+class CBOOL(Sort):
+    """C++ bool"""
+
+    def z3sort(self):
+        return z3.BoolSort()
+
+    def fresh(self, name):
+        return z3.Bool(fresh_name(name))
+
+
 class REF(Sort):
     """Reference to a heap object of class cls; 0 is None."""
 
